@@ -3,9 +3,11 @@ import FiberModel.C19.Spec
 import FiberModel.Generated.C19Facts
 /-
 Driver for C19. Case fields (after the id):
-  allowOrigins(hexlist) funcSet(0/1) funcAllows(hexlist) allowMethods allowHeaders expose(hexlists)
-  maxAge(int) credentials(0/1) privateNetwork(0/1)
-  method origin acrMethod acrHeaders acrPrivate (hex) skip(0/1)   implObs
+  allowOrigins(hexlist) nextSet(0/1) funcSet(0/1) funcAllows(hexlist) funcPanics(hexlist)
+  allowMethods allowHeaders expose(hexlists) maxAge(int) credentials(0/1) privateNetwork(0/1)
+  method origin acrMethod acrHeaders acrPrivate (hex) skip(0/1) priorVary(hex) afterVary(hexlist)
+  urlFacts (`hex(arg)=err|scheme|host|path|rawquery|fragment` joined by `;`, from the real net/url)
+  implObs
 -/
 open B DriverUtil C19
 
@@ -13,29 +15,23 @@ def optHex : Option Bytes → String
   | none => "none"
   | some v => toHexField v
 
-def bytesLe : Bytes → Bytes → Bool
-  | [], _ => true
-  | _ :: _, [] => false
-  | x :: xs, y :: ys => x < y || (x == y && bytesLe xs ys)
-
-/-- Vary is compared as a sorted set: the property only speaks about membership. -/
-def canonVary (v : List Bytes) : List Bytes := (v.mergeSort bytesLe).eraseDups
-
 def renderResp (r : Response) : String :=
+  if r.panicked then "reqpanic" else
   s!"next={if r.next then 1 else 0};s204={if r.status204 then 1 else 0};acao={optHex r.acao};" ++
-  s!"acac={if r.acac then 1 else 0};vary={hexListField (canonVary r.vary)};am={optHex r.allowMethods};" ++
+  s!"acac={if r.acac then 1 else 0};vary={toHexField r.vary};am={optHex r.allowMethods};" ++
   s!"ah={optHex r.allowHeaders};ma={optHex r.maxAge};ex={optHex r.expose};pn={if r.privateNet then 1 else 0}"
 
 def parseOpt (s : String) : Option (Option Bytes) :=
   if s == "none" then some none else (fromHex s).map some
 
-def parseResp (s : String) : Option Response := do
+def parseResp (s : String) : Option Response :=
+  if s == "reqpanic" then some { next := false, status204 := false, panicked := true } else do
   let kv := (s.splitOn ";").filterMap fun p => match p.splitOn "=" with
     | [k, v] => some (k, v) | _ => none
   let get (k : String) : Option String := (kv.find? (·.1 == k)).map (·.2)
   let flag (k : String) : Option Bool := (get k).map (· == "1")
   some { next := ← flag "next", status204 := ← flag "s204", acao := ← (get "acao").bind parseOpt,
-         acac := ← flag "acac", vary := ← (get "vary").bind hexList,
+         acac := ← flag "acac", vary := ← (get "vary").bind fromHex,
          allowMethods := ← (get "am").bind parseOpt, allowHeaders := ← (get "ah").bind parseOpt,
          maxAge := ← (get "ma").bind parseOpt, expose := ← (get "ex").bind parseOpt,
          privateNet := ← flag "pn" }
@@ -43,11 +39,33 @@ def parseResp (s : String) : Option Response := do
 /-- `ConfigDefault.AllowMethods`, regenerated from /repo on every run. -/
 def defaultMethods : List Bytes := C19.Facts.defaultAllowMethods
 
+/-- how the harness prints a `url.Parse` result -/
+def renderURL : Option Url.URL → String
+  | none => "err"
+  | some u => s!"{toHex u.scheme}|{toHex u.host}|{toHex u.path}|{toHex u.rawQuery}|{toHex u.fragment}"
+
+/-- the recorded answers of the real `url.Parse`: (argument, rendered result) -/
+def parseFacts (s : String) : Option (List (Bytes × String)) :=
+  if s == "" then some [] else
+  (s.splitOn ";").mapM fun p => match p.splitOn "=" with
+    | [a, r] => (if a == "" then some [] else fromHexAux a.toList).map fun bs => (bs, r)
+    | _ => none
+
+/-- the strings `New` hands to `normalizeOrigin` (entries up to the first `*`) -/
+def normalizeArgs : List Bytes → List Bytes
+  | [] => []
+  | o :: rest =>
+    if o = b "*" then []
+    else match indexOf o (b "://*.") with
+      | some i => trim (o.take (i + 3) ++ o.drop (i + 4)) 32 :: normalizeArgs rest
+      | none => trim o 32 :: normalizeArgs rest
+
 def handleCase (f : List String) : Except String Verdict := do
   match f with
-  | [id, ao, fs, fa, am, ah, ex, ma, cr, pn, me, og, acrm, acrh, acrpn, sk, impl] =>
+  | [id, ao, ns, fs, fa, fp, am, ah, ex, ma, cr, pn, me, og, acrm, acrh, acrpn, sk, pv, av, uf, impl] =>
     let some ao := hexList ao | throw "allowOrigins"
     let some fa := hexList fa | throw "funcAllows"
+    let some fp := hexList fp | throw "funcPanics"
     let some am := hexList am | throw "allowMethods"
     let some ah := hexList ah | throw "allowHeaders"
     let some ex := hexList ex | throw "expose"
@@ -61,10 +79,33 @@ def handleCase (f : List String) : Except String Verdict := do
     let some acrm := fromHex acrm | throw "acrm"
     let some acrh := fromHex acrh | throw "acrh"
     let some acrpn := fromHex acrpn | throw "acrpn"
-    let cfg : Config := { allowOrigins := ao, allowFunc := if fs == "1" then some (fun o => fa.contains o) else none,
-                          allowMethods := am, allowHeaders := ah, exposeHeaders := ex, maxAge := ma,
-                          credentials := cr == "1", privateNetwork := pn == "1" }
-    let q : Request := { method := me, origin := og, acrMethod := acrm, acrHeaders := acrh, acrPrivate := acrpn, skip := sk == "1" }
+    let some pv := fromHex pv | throw "priorVary"
+    let some av := hexList av | throw "afterVary"
+    let some facts := parseFacts uf | throw "urlFacts"
+    -- domain guard: `strings.ToLower` is modelled on ASCII text only
+    if !isASCII og then throw "outside-domain: non-ASCII Origin"
+    let args := normalizeArgs ao
+    if args.any (fun a => match Url.parse a with | some u => !isASCII u.host | none => false) then
+      throw "outside-domain: non-ASCII host in AllowOrigins"
+    -- the hypothesis about net/url, checked on this case: the transcription answers what the real
+    -- `url.Parse` answered, on every recorded string, and every string the constructor model
+    -- normalises is among them
+    let urlBad : Option String :=
+      match facts.find? (fun (a, r) => renderURL (Url.parse a) != r) with
+      | some (a, _) => some s!"url-parse-differs:{toHexField a}:{renderURL (Url.parse a)}"
+      | none =>
+        match args.find? (fun a => !(facts.any (·.1 == a))) with
+        | some a => some s!"url-fact-missing:{toHexField a}"
+        | none => none
+    let cfg : Config :=
+      { next := if ns == "1" then some (fun q => q.skip) else none,
+        allowOrigins := ao,
+        allowFunc := if fs == "1" then some (fun o => if fp.contains o then none else some (fa.contains o)) else none,
+        allowMethods := am, allowHeaders := ah, exposeHeaders := ex, maxAge := ma,
+        credentials := cr == "1", privateNetwork := pn == "1" }
+    let q : Request := { method := me, origin := og, acrMethod := acrm, acrHeaders := acrh, acrPrivate := acrpn,
+                         skip := sk == "1", priorVary := pv, afterVary := av }
+    let obs (s : String) : String := match urlBad with | some e => e | none => s
     match build cfg defaultMethods with
     | none =>
       -- the constructor refuses the configuration; nothing is served, the property is silent.
@@ -72,23 +113,33 @@ def handleCase (f : List String) : Except String Verdict := do
       let cfgd := if cfg.allowMethods.isEmpty then { cfg with allowMethods := defaultMethods } else cfg
       let spec : Option String :=
         if impl == "panic" then none
-        else match buildLax cfgd, parseResp impl with
-          | some bt, some ri => specViolation bt q ri
-          | _, _ => none
-      pure { id := id, modelObs := "panic", implObs := impl, spec := spec, tags := ["panic"] }
+        else match ctorViolation cfgd true with
+          | some c => some c
+          | none =>
+            match parseResp impl with
+            | some ri => specViolation cfgd q ri
+            | none => some "unparsable-observation"
+      pure { id := id, modelObs := obs "panic", implObs := impl, spec := spec, tags := ["panic"] }
     | some bt =>
       let r := handle bt q
       let spec : Option String :=
         if impl == "panic" then none
         else match parseResp impl with
           | none => some "unparsable-observation"
-          | some ri => specViolation bt q ri
+          | some ri => specViolation bt.cfg q ri
       let o := toLower og
-      let branch := if q.skip then "skipped" else if o = [] then "noorigin" else if me = OPTIONS ∧ acrm = [] then "options-nonpreflight"
-                    else if me ≠ OPTIONS then "simple" else "preflight"
-      let dec := if o = [] then "na" else if bt.allowAll then "all" else if permitted bt o then "allowed" else "denied"
-      let nt := if o ≠ [] && !bt.allowAll && !q.skip then ["nt"] else []
-      pure { id := id, modelObs := renderResp r, implObs := impl, spec := spec, tags := [branch, dec] ++ nt }
-  | _ => throw s!"expected 17 fields, got {f.length}"
+      let sk := skipped cfg q
+      let branch := if sk then "skipped" else if o = [] then "noorigin" else if me = OPTIONS ∧ acrm = [] then "options-nonpreflight"
+                    else if r.panicked then "func-panic" else if me ≠ OPTIONS then "simple" else "preflight"
+      let dec := if o = [] then "na" else if bt.allowAll then "all"
+                 else if bt.origins.contains o then "allowed-exact"
+                 else if bt.subs.any (·.match o) then "allowed-wildcard"
+                 else if permitted bt o then "allowed-func" else "denied"
+      let vt := (if pv = [] then [] else if varyWF pv then ["vary-prior"] else ["vary-prior-malformed"]) ++
+                (if av = [] then [] else ["vary-after"])
+      let ct := (if bt.subs.isEmpty then [] else ["cfg-wildcard"]) ++ (if ns == "1" then [] else ["next-nil"])
+      let nt := if o ≠ [] && !bt.allowAll && !sk then ["nt"] else []
+      pure { id := id, modelObs := obs (renderResp r), implObs := impl, spec := spec, tags := [branch, dec] ++ vt ++ ct ++ nt }
+  | _ => throw s!"expected 22 fields, got {f.length}"
 
 def main : IO Unit := run handleCase
